@@ -393,4 +393,967 @@ theorem moveChild_spec (s : Nodes) (node ob l : Nat) (s' : Nodes)
             · simp [hq]
     · cases h
 
+/-! ### the invariant -/
+
+/-- Base under which the child `(p, l)` is stored while the children `pend` of `node` still sit under
+the old base `ob` (in the middle of a `rebase`). -/
+def cbf (s : Nodes) (node ob : Nat) (pend : List Nat) (p l : Nat) : Option Nat :=
+  if p = node ∧ l ∈ pend then some ob else s.base p
+
+theorem cbf_nil (s : Nodes) (node ob : Nat) : cbf s node ob [] = fun p _ => s.base p := by
+  funext p l; simp [cbf]
+
+/-- `A i` is the label path from the root to the used slot `i`. -/
+structure Inv (nl : Nat) (s : Nodes) (A : Nat → Option (List Nat)) (B : Nat → Nat → Option Nat) : Prop where
+  root_check : s.check 0 = some 0
+  root_path : A 0 = some []
+  used : ∀ i, A i = none ↔ s.check i = none
+  empty : ∀ i, s.check i = none → s.base i = none
+  child : ∀ i P, i ≠ 0 → A i = some P → ∃ p l b Pp, s.check i = some p ∧ A p = some Pp ∧
+    P = Pp ++ [l] ∧ B p l = some b ∧ i = b + l ∧ 1 ≤ l ∧ l ≤ nl
+
+theorem Inv.used_some {nl s A B} (h : Inv nl s A B) (i p : Nat) (hc : s.check i = some p) :
+    ∃ P, A i = some P := by
+  cases hA : A i with
+  | none => rw [(h.used i).1 hA] at hc; cases hc
+  | some P => exact ⟨P, rfl⟩
+
+theorem Inv.lt_size {nl s A B} (h : Inv nl s A B) (i : Nat) (P : List Nat) (hA : A i = some P) : i < s.size := by
+  cases hc : s.check i with
+  | none => rw [(h.used i).2 hc] at hA; cases hA
+  | some p => exact check_lt s i p hc
+
+/-- A used slot is not its own parent (the assertion in `rebase` never fires). -/
+theorem Inv.not_self_parent {nl s A B} (h : Inv nl s A B) (i : Nat) (hi : i ≠ 0) : s.check i ≠ some i := by
+  intro hc
+  obtain ⟨P, hP⟩ := h.used_some i i hc
+  obtain ⟨p, l, b, Pp, hcp, hAp, hPe, _⟩ := h.child i P hi hP
+  rw [hc] at hcp
+  have : p = i := (Option.some.inj hcp).symm
+  subst this
+  rw [hP] at hAp
+  have : P = Pp := Option.some.inj hAp
+  subst this
+  have := congrArg List.length hPe
+  simp at this
+
+theorem moveChild_inv (nl : Nat) (s : Nodes) (node ob l : Nat) (rest : List Nat) (s' : Nodes)
+    (A : Nat → Option (List Nat)) (P : List Nat)
+    (hI : Inv nl s A (cbf s node ob (l :: rest)))
+    (hP : A node = some P)
+    (hold : s.check (ob + l) = some node) (holdA : A (ob + l) = some (P ++ [l]))
+    (hl1 : 1 ≤ l) (hlr : l ∉ rest)
+    (hfree : ∀ nb, s.base node = some nb → s.check (nb + l) = none)
+    (h : s.moveChild node ob l = some s') :
+    ∃ nb, s.base node = some nb ∧ s'.base node = some nb ∧ s.size ≤ s'.size ∧
+      node ≠ ob + l ∧ node ≠ nb + l ∧
+      Inv nl s' (fun i => if i = ob + l then none else if i = nb + l then A (ob + l) else A i)
+        (cbf s' node ob rest) ∧
+      (∀ j, s'.check j = if j = ob + l then none else if j = nb + l then some node
+                         else if s.check j = some (ob + l) then some (nb + l) else s.check j) ∧
+      (FreeOK s → FreeOK s') := by
+  have hold0 : ob + l ≠ 0 := by omega
+  have hnodeold : node ≠ ob + l := by
+    intro hh; exact hI.not_self_parent (ob + l) hold0 (by rw [← hh] at hold ⊢; exact hold)
+  have hnogc : s.base (ob + l) = none → ∀ i, s.check i ≠ some (ob + l) := by
+    intro hb i hc
+    by_cases hi : i = 0
+    · rw [hi, hI.root_check] at hc; exact hold0 (Option.some.inj hc).symm
+    · obtain ⟨Pi, hPi⟩ := hI.used_some i _ hc
+      obtain ⟨p, l', b, Pp, hcp, _, _, hB, _⟩ := hI.child i Pi hi hPi
+      rw [hc] at hcp
+      have : p = ob + l := (Option.some.inj hcp).symm
+      subst this
+      have hne : ¬ (ob + l = node ∧ l' ∈ l :: rest) := fun hh => hnodeold hh.1.symm
+      simp only [cbf, hne, if_false] at hB
+      rw [hb] at hB; cases hB
+  have hfreeb : ∀ nb, s.base node = some nb → s.base (nb + l) = none :=
+    fun nb hnb => hI.empty _ (hfree nb hnb)
+  obtain ⟨nb, hnb, _, hnodelt, hsz, hc', hb', hfo⟩ := moveChild_spec s node ob l s' h hnogc hfreeb
+  have hidxfree : s.check (nb + l) = none := hfree nb hnb
+  have hAidx : A (nb + l) = none := (hI.used _).2 hidxfree
+  have hidxold : nb + l ≠ ob + l := by
+    intro hh; rw [hh, hold] at hidxfree; cases hidxfree
+  have hnodeidx : node ≠ nb + l := by
+    intro hh; rw [← hh, hP] at hAidx; cases hAidx
+  have hidx0 : nb + l ≠ 0 := by omega
+  have hbnode : s'.base node = some nb := by
+    rw [hb', if_neg hnodeold, if_neg hnodeidx, hnb]
+  refine ⟨nb, hnb, hbnode, hsz, hnodeold, hnodeidx, ?_, hc', hfo⟩
+  constructor
+  · -- root_check
+    rw [hc', if_neg (Ne.symm hold0), if_neg (Ne.symm hidx0), hI.root_check]
+    have : (some 0 : Option Nat) ≠ some (ob + l) := fun hh => hold0 (Option.some.inj hh).symm
+    rw [if_neg this]
+  · -- root_path
+    show (if 0 = ob + l then none else if 0 = nb + l then A (ob + l) else A 0) = some []
+    rw [if_neg (Ne.symm hold0), if_neg (Ne.symm hidx0), hI.root_path]
+  · -- used
+    intro i
+    show (if i = ob + l then none else if i = nb + l then A (ob + l) else A i) = none ↔ _
+    rw [hc']
+    by_cases hi : i = ob + l
+    · simp [hi]
+    · simp only [hi, if_false]
+      by_cases hi2 : i = nb + l
+      · simp [hi2, holdA]
+      · simp only [hi2, if_false]
+        by_cases hq : s.check i = some (ob + l)
+        · have : A i ≠ none := fun hh => by rw [(hI.used i).1 hh] at hq; cases hq
+          simp [hq, this]
+        · simp only [hq, if_false]; exact hI.used i
+  · -- empty
+    intro i hci
+    rw [hc'] at hci
+    rw [hb']
+    by_cases hi : i = ob + l
+    · simp [hi]
+    · simp only [hi, if_false] at hci ⊢
+      by_cases hi2 : i = nb + l
+      · simp [hi2] at hci
+      · simp only [hi2, if_false] at hci ⊢
+        by_cases hq : s.check i = some (ob + l)
+        · simp [hq] at hci
+        · simp only [hq, if_false] at hci; exact hI.empty i hci
+  · -- child
+    intro i Pi hi0 hAi
+    have hAi' : (if i = ob + l then none else if i = nb + l then A (ob + l) else A i) = some Pi := hAi
+    by_cases hi : i = ob + l
+    · simp [hi] at hAi'
+    · simp only [hi, if_false] at hAi'
+      by_cases hi2 : i = nb + l
+      · -- the moved child
+        simp only [hi2, if_true] at hAi'
+        rw [holdA] at hAi'
+        have hPi : Pi = P ++ [l] := (Option.some.inj hAi').symm
+        obtain ⟨p, l', b, Pp, _, _, _, _, _, _, hlnl⟩ := hI.child (ob + l) (P ++ [l]) hold0 holdA
+        -- bounds of `l` come from the old child's own record
+        obtain ⟨p2, l2, b2, Pp2, hcp2, hAp2, hPe2, hB2, hie2, hl2a, hl2b⟩ := hI.child (ob + l) (P ++ [l]) hold0 holdA
+        have hl2 : l2 = l := by
+          have := congrArg List.getLast? hPe2
+          simp at this; exact this.symm
+        subst hl2
+        refine ⟨node, l2, nb, P, ?_, ?_, hPi, ?_, hi2, hl2a, hl2b⟩
+        · rw [hc', if_neg hi, if_pos hi2]
+        · show (if node = ob + l2 then none else if node = nb + l2 then A (ob + l2) else A node) = some P
+          rw [if_neg hnodeold, if_neg hnodeidx, hP]
+        · simp only [cbf, hlr, and_false, if_false]; exact hbnode
+      · simp only [hi2, if_false] at hAi'
+        obtain ⟨p, l', b, Pp, hcp, hAp, hPe, hB, hie, hla, hlb⟩ := hI.child i Pi hi0 hAi'
+        by_cases hp : p = ob + l
+        · -- a grandchild: re-parented to the moved child
+          subst hp
+          refine ⟨nb + l, l', b, Pp, ?_, ?_, hPe, ?_, hie, hla, hlb⟩
+          · rw [hc', if_neg hi, if_neg hi2, if_pos hcp]
+          · show (if nb + l = ob + l then none else if nb + l = nb + l then A (ob + l) else A (nb + l)) = some Pp
+            rw [if_neg hidxold, if_pos rfl]; exact hAp
+          · have hne : ¬ (ob + l = node ∧ l' ∈ l :: rest) := fun hh => hnodeold hh.1.symm
+            simp only [cbf, hne, if_false] at hB
+            have hne2 : ¬ (nb + l = node ∧ l' ∈ rest) := fun hh => hnodeidx hh.1.symm
+            simp only [cbf, hne2, if_false]
+            rw [hb', if_neg hidxold, if_pos rfl]; exact hB
+        · have hpidx : p ≠ nb + l := by
+            intro hh; rw [hh, hAidx] at hAp; cases hAp
+          refine ⟨p, l', b, Pp, ?_, ?_, hPe, ?_, hie, hla, hlb⟩
+          · rw [hc', if_neg hi, if_neg hi2]
+            have : s.check i ≠ some (ob + l) := by rw [hcp]; exact fun hh => hp (Option.some.inj hh)
+            rw [if_neg this, hcp]
+          · show (if p = ob + l then none else if p = nb + l then A (ob + l) else A p) = some Pp
+            rw [if_neg hp, if_neg hpidx]; exact hAp
+          · have hbp : s'.base p = s.base p := by rw [hb', if_neg hp, if_neg hpidx]
+            simp only [cbf] at hB ⊢
+            by_cases hq : p = node ∧ l' ∈ rest
+            · have hq' : p = node ∧ l' ∈ l :: rest := ⟨hq.1, List.mem_cons_of_mem _ hq.2⟩
+              rw [if_pos hq'] at hB; rw [if_pos hq]; exact hB
+            · rw [if_neg hq, hbp]
+              by_cases hq' : p = node ∧ l' ∈ l :: rest
+              · -- then l' = l and i would be the old slot
+                rw [if_pos hq'] at hB
+                have hbo : b = ob := (Option.some.inj hB).symm
+                rcases List.mem_cons.1 hq'.2 with hll | hll
+                · exfalso; apply hi; rw [hie, hbo, hll]
+                · exact absurd ⟨hq'.1, hll⟩ hq
+              · rw [if_neg hq'] at hB; exact hB
+
+theorem moveChildren_inv (nl node ob nb : Nat) (P resv : List Nat) :
+    ∀ (pend : List Nat) (s s' : Nodes) (A : Nat → Option (List Nat)),
+    Inv nl s A (cbf s node ob pend) → FreeOK s → A node = some P → s.base node = some nb →
+    pend.Nodup →
+    (∀ l ∈ pend, 1 ≤ l ∧ s.check (ob + l) = some node ∧ A (ob + l) = some (P ++ [l])) →
+    (∀ l, l ∈ pend ∨ l ∈ resv → s.check (nb + l) = none) → (∀ l ∈ pend, l ∉ resv) →
+    s.moveChildren node ob pend = some s' →
+    ∃ A', Inv nl s' A' (fun p _ => s'.base p) ∧ FreeOK s' ∧ A' node = some P ∧ s'.base node = some nb ∧
+      (∀ l ∈ resv, s'.check (nb + l) = none) ∧ (∀ M, (∃ i, A' i = some M) ↔ (∃ i, A i = some M)) ∧
+      s.size ≤ s'.size := by
+  intro pend
+  induction pend with
+  | nil =>
+    intro s s' A hI hF hP hb _ _ hfree _ h
+    simp only [Nodes.moveChildren, Option.some.injEq] at h
+    subst h
+    rw [cbf_nil] at hI
+    exact ⟨A, hI, hF, hP, hb, fun l hl => hfree l (Or.inr hl), fun M => Iff.rfl, Nat.le_refl _⟩
+  | cons l rest ih =>
+    intro s s' A hI hF hP hb hnd hpend hfree hdisj h
+    simp only [Nodes.moveChildren] at h
+    cases hm : s.moveChild node ob l with
+    | none => simp [hm] at h
+    | some s1 =>
+      simp only [hm, Option.bind_some] at h
+      have hlr : l ∉ rest := (List.nodup_cons.1 hnd).1
+      have hndr : rest.Nodup := (List.nodup_cons.1 hnd).2
+      obtain ⟨hl1, hold, holdA⟩ := hpend l List.mem_cons_self
+      have hfree1 : ∀ nb', s.base node = some nb' → s.check (nb' + l) = none := by
+        intro nb' hnb'
+        rw [hb] at hnb'
+        rw [← Option.some.inj hnb']
+        exact hfree l (Or.inl List.mem_cons_self)
+      obtain ⟨nb', hnb', hb1, hsz1, hnodeold, hnodeidx, hI1, hc1, hF1⟩ :=
+        moveChild_inv nl s node ob l rest s1 A P hI hP hold holdA hl1 hlr hfree1 hm
+      rw [hb] at hnb'
+      have : nb' = nb := (Option.some.inj hnb').symm
+      subst this
+      have hidxfree : s.check (nb' + l) = none := hfree l (Or.inl List.mem_cons_self)
+      have hAidx : A (nb' + l) = none := (hI.used _).2 hidxfree
+      have hidxold : nb' + l ≠ ob + l := by
+        intro hh; rw [hh, hold] at hidxfree; cases hidxfree
+      -- preconditions for the rest of the loop
+      have hP1 : (fun i => if i = ob + l then none else if i = nb' + l then A (ob + l) else A i) node = some P := by
+        show (if node = ob + l then none else if node = nb' + l then A (ob + l) else A node) = some P
+        rw [if_neg hnodeold, if_neg hnodeidx, hP]
+      have hpend1 : ∀ l2 ∈ rest, 1 ≤ l2 ∧ s1.check (ob + l2) = some node ∧
+          (fun i => if i = ob + l then none else if i = nb' + l then A (ob + l) else A i) (ob + l2) = some (P ++ [l2]) := by
+        intro l2 hl2
+        obtain ⟨h1, h2, h3⟩ := hpend l2 (List.mem_cons_of_mem _ hl2)
+        have hne : l2 ≠ l := fun hh => hlr (hh ▸ hl2)
+        have hj1 : ob + l2 ≠ ob + l := by omega
+        have hj2 : ob + l2 ≠ nb' + l := by
+          intro hh; rw [hh, hidxfree] at h2; cases h2
+        refine ⟨h1, ?_, ?_⟩
+        · rw [hc1, if_neg hj1, if_neg hj2, h2]
+          have : (some node : Option Nat) ≠ some (ob + l) := fun hh => hnodeold (Option.some.inj hh)
+          rw [if_neg this]
+        · show (if ob + l2 = ob + l then none else if ob + l2 = nb' + l then A (ob + l) else A (ob + l2)) = _
+          rw [if_neg hj1, if_neg hj2, h3]
+      have hfree' : ∀ l2, l2 ∈ rest ∨ l2 ∈ resv → s1.check (nb' + l2) = none := by
+        intro l2 hl2
+        have hne : l2 ≠ l := by
+          rcases hl2 with hl2 | hl2
+          · exact fun hh => hlr (hh ▸ hl2)
+          · exact fun hh => hdisj l List.mem_cons_self (hh ▸ hl2)
+        have h0 : s.check (nb' + l2) = none := by
+          rcases hl2 with hl2 | hl2
+          · exact hfree l2 (Or.inl (List.mem_cons_of_mem _ hl2))
+          · exact hfree l2 (Or.inr hl2)
+        rw [hc1]
+        by_cases hj : nb' + l2 = ob + l
+        · rw [if_pos hj]
+        · rw [if_neg hj, if_neg (by omega), h0]; simp
+      have hdisj' : ∀ l2 ∈ rest, l2 ∉ resv := fun l2 hl2 => hdisj l2 (List.mem_cons_of_mem _ hl2)
+      obtain ⟨A', hI', hF', hP', hb', hres', hpaths, hsz'⟩ :=
+        ih s1 s' _ hI1 (hF1 hF) hP1 hb1 hndr hpend1 hfree' hdisj' h
+      refine ⟨A', hI', hF', hP', hb', hres', ?_, by omega⟩
+      intro M
+      rw [hpaths M]
+      constructor
+      · rintro ⟨i, hi⟩
+        have hi' : (if i = ob + l then none else if i = nb' + l then A (ob + l) else A i) = some M := hi
+        by_cases h1 : i = ob + l
+        · simp [h1] at hi'
+        · simp only [h1, if_false] at hi'
+          by_cases h2 : i = nb' + l
+          · simp only [h2, if_true] at hi'; exact ⟨_, hi'⟩
+          · simp only [h2, if_false] at hi'; exact ⟨_, hi'⟩
+      · rintro ⟨i, hi⟩
+        by_cases h1 : i = ob + l
+        · refine ⟨nb' + l, ?_⟩
+          show (if nb' + l = ob + l then none else if nb' + l = nb' + l then A (ob + l) else A (nb' + l)) = some M
+          rw [if_neg hidxold, if_pos rfl, ← h1]; exact hi
+        · have h2 : i ≠ nb' + l := by intro hh; rw [hh, hAidx] at hi; cases hi
+          refine ⟨i, ?_⟩
+          show (if i = ob + l then none else if i = nb' + l then A (ob + l) else A i) = some M
+          rw [if_neg h1, if_neg h2]; exact hi
+
+/-! ### steps under the plain invariant (`B p _ = base p`) -/
+
+abbrev Inv0 (nl : Nat) (s : Nodes) (A : Nat → Option (List Nat)) : Prop := Inv nl s A (fun p _ => s.base p)
+
+/-- The slot a transition leads to carries the extended path. -/
+theorem child_path {nl s A} (hI : Inv0 nl s A) (p b l : Nat) (P : List Nat)
+    (hb : s.base p = some b) (hc : s.check (b + l) = some p) (hl : 1 ≤ l) (hP : A p = some P) :
+    A (b + l) = some (P ++ [l]) := by
+  obtain ⟨Pi, hPi⟩ := hI.used_some _ _ hc
+  obtain ⟨p', l', b', Pp, hcp, hAp, hPe, hB, hie, _, _⟩ := hI.child (b + l) Pi (by omega) hPi
+  rw [hc] at hcp
+  have hp : p' = p := (Option.some.inj hcp).symm
+  subst hp
+  rw [hP] at hAp
+  have : Pp = P := (Option.some.inj hAp).symm
+  subst this
+  have hB' : s.base p' = some b' := hB
+  rw [hb] at hB'
+  have : b' = b := (Option.some.inj hB').symm
+  subst this
+  have : l' = l := by omega
+  subst this
+  rw [hPi, hPe]
+
+theorem mem_findLabelsOf (s : Nodes) (idx nl l : Nat) :
+    l ∈ s.findLabelsOf idx nl ↔ ∃ b, s.base idx = some b ∧ 1 ≤ l ∧ l ≤ nl ∧ s.check (b + l) = some idx := by
+  unfold Nodes.findLabelsOf
+  cases hb : s.base idx with
+  | none => simp
+  | some b =>
+    simp only [List.mem_filterMap, List.mem_range, Option.some.injEq, exists_eq_left']
+    constructor
+    · rintro ⟨k, hk, hq⟩
+      split at hq
+      · next hc => simp only [Option.some.injEq] at hq; subst hq; exact ⟨by omega, by omega, hc⟩
+      · cases hq
+    · rintro ⟨h1, h2, h3⟩
+      refine ⟨l - 1, by omega, ?_⟩
+      have : l - 1 + 1 = l := by omega
+      simp [this, h3]
+
+theorem nodup_findLabelsOf (s : Nodes) (idx nl : Nat) : (s.findLabelsOf idx nl).Nodup := by
+  unfold Nodes.findLabelsOf
+  cases s.base idx with
+  | none => simp
+  | some b =>
+    refine List.Pairwise.filterMap _ ?_ List.nodup_range
+    intro a a' hne x hx y hy
+    simp only at hx hy
+    split at hx <;> split at hy <;> simp_all
+    omega
+
+theorem recordTransition_inv (nl : Nat) (s : Nodes) (idx l : Nat) (s' : Nodes) (ci : Nat)
+    (A : Nat → Option (List Nat)) (P : List Nat)
+    (hI : Inv0 nl s A) (hP : A idx = some P) (hl : 1 ≤ l ∧ l ≤ nl)
+    (hfree : ∀ b, s.base idx = some b → s.check (b + l) = none)
+    (h : s.recordTransition idx l = some (s', ci)) :
+    Inv0 nl s' (fun i => if i = ci then some (P ++ [l]) else A i) ∧ (FreeOK s → FreeOK s') ∧
+      s.size ≤ s'.size ∧ idx ≠ ci ∧ A ci = none := by
+  obtain ⟨b, hb, hci, _, hsz, _, hc', hb', hF'⟩ := recordTransition_spec s idx l s' ci h
+  have hcfree : s.check ci = none := by rw [hci]; exact hfree b hb
+  have hAci : A ci = none := (hI.used _).2 hcfree
+  have hne : idx ≠ ci := by intro hh; rw [hh, hAci] at hP; cases hP
+  have hci0 : ci ≠ 0 := by omega
+  refine ⟨?_, hF', hsz, hne, hAci⟩
+  constructor
+  · rw [hc', if_neg (Ne.symm hci0)]; exact hI.root_check
+  · show (if 0 = ci then some (P ++ [l]) else A 0) = some []
+    rw [if_neg (Ne.symm hci0)]; exact hI.root_path
+  · intro i
+    show (if i = ci then some (P ++ [l]) else A i) = none ↔ _
+    rw [hc']
+    by_cases hi : i = ci
+    · simp [hi]
+    · simp only [hi, if_false]; exact hI.used i
+  · intro i hc
+    rw [hc'] at hc
+    rw [hb']
+    by_cases hi : i = ci
+    · simp [hi] at hc
+    · simp only [hi, if_false] at hc; exact hI.empty i hc
+  · intro i Pi hi0 hAi
+    have hAi' : (if i = ci then some (P ++ [l]) else A i) = some Pi := hAi
+    by_cases hi : i = ci
+    · simp only [hi, if_true, Option.some.injEq] at hAi'
+      refine ⟨idx, l, b, P, ?_, ?_, hAi'.symm, ?_, by omega, hl.1, hl.2⟩
+      · rw [hc', if_pos hi]
+      · show (if idx = ci then some (P ++ [l]) else A idx) = some P
+        rw [if_neg hne, hP]
+      · show s'.base idx = some b
+        rw [hb', hb]
+    · simp only [hi, if_false] at hAi'
+      obtain ⟨p, l', b', Pp, hcp, hAp, hPe, hB, hie, hla, hlb⟩ := hI.child i Pi hi0 hAi'
+      have hpci : p ≠ ci := by intro hh; rw [hh, hAci] at hAp; cases hAp
+      refine ⟨p, l', b', Pp, ?_, ?_, hPe, ?_, hie, hla, hlb⟩
+      · rw [hc', if_neg hi, hcp]
+      · show (if p = ci then some (P ++ [l]) else A p) = some Pp
+        rw [if_neg hpci, hAp]
+      · show s'.base p = some b'
+        rw [hb']; exact hB
+
+theorem setBase_inv (nl : Nat) (s : Nodes) (i b : Nat) (A : Nat → Option (List Nat)) (P : List Nat)
+    (hI : Inv0 nl s A) (hP : A i = some P) (hb : s.base i = none) :
+    Inv0 nl (s.setBase i (some b)) A := by
+  have hlt : i < s.size := hI.lt_size i P hP
+  constructor
+  · rw [check_setBase]; exact hI.root_check
+  · exact hI.root_path
+  · intro j; rw [check_setBase]; exact hI.used j
+  · intro j hc
+    rw [check_setBase] at hc
+    rw [base_setBase]
+    by_cases hj : j = i
+    · subst hj; rw [(hI.used j).2 hc] at hP; cases hP
+    · simp only [hj, false_and, if_false]; exact hI.empty j hc
+  · intro j Pj hj0 hAj
+    obtain ⟨p, l', b', Pp, hcp, hAp, hPe, hB, hie, hla, hlb⟩ := hI.child j Pj hj0 hAj
+    have hB' : s.base p = some b' := hB
+    have hpi : p ≠ i := by intro hh; rw [hh, hb] at hB'; cases hB'
+    refine ⟨p, l', b', Pp, ?_, hAp, hPe, ?_, hie, hla, hlb⟩
+    · rw [check_setBase]; exact hcp
+    · show (s.setBase i (some b)).base p = some b'
+      rw [base_setBase]; simp only [hpi, false_and, if_false]; exact hB'
+
+theorem xcheck_spec (s : Nodes) (labels : List Nat) (c t : Nat) (hF : FreeOK s)
+    (h : s.xcheck labels c = .ok t) : ∀ l ∈ labels, s.check (t + l) = none := by
+  unfold Nodes.xcheck at h
+  split at h
+  · cases h
+  · split at h
+    · next hadm =>
+      simp only [Res.ok.injEq] at h
+      subst h
+      intro l hl
+      simp only [Nodes.admissible, List.all_eq_true] at hadm
+      exact ((hF.2 _).1 ((memNat_iff _ _).1 (hadm l hl))).2
+    · split at h
+      · next hsz =>
+        simp only [Res.ok.injEq] at h
+        subst h
+        intro l _
+        simp [Nodes.check, get_of_ge s (s.size + l) (by omega), emptySlot]
+      · cases h
+
+theorem rebase_inv (nl : Nat) (s : Nodes) (node ob nb : Nat) (s' : Nodes)
+    (A : Nat → Option (List Nat)) (P resv : List Nat)
+    (hI : Inv0 nl s A) (hF : FreeOK s) (hP : A node = some P) (hob : s.base node = some ob)
+    (hfree : ∀ l, l ∈ s.findLabelsOf node nl ∨ l ∈ resv → s.check (nb + l) = none)
+    (hdisj : ∀ l ∈ s.findLabelsOf node nl, l ∉ resv)
+    (h : s.rebase node nb nl = some s') :
+    ∃ A', Inv0 nl s' A' ∧ FreeOK s' ∧ A' node = some P ∧ s'.base node = some nb ∧
+      (∀ l ∈ resv, s'.check (nb + l) = none) ∧ (∀ M, (∃ i, A' i = some M) ↔ (∃ i, A i = some M)) ∧
+      s.size ≤ s'.size := by
+  have hlt : node < s.size := hI.lt_size node P hP
+  unfold Nodes.rebase at h
+  rw [if_pos hlt, hob] at h
+  simp only at h
+  have hb0 : (s.setBase node (some nb)).base node = some nb := by
+    rw [base_setBase]; simp [hlt]
+  have hI0 : Inv nl (s.setBase node (some nb)) A
+      (cbf (s.setBase node (some nb)) node ob (s.findLabelsOf node nl)) := by
+    constructor
+    · rw [check_setBase]; exact hI.root_check
+    · exact hI.root_path
+    · intro j; rw [check_setBase]; exact hI.used j
+    · intro j hc
+      rw [check_setBase] at hc
+      rw [base_setBase]
+      by_cases hj : j = node
+      · subst hj; rw [(hI.used j).2 hc] at hP; cases hP
+      · simp only [hj, false_and, if_false]; exact hI.empty j hc
+    · intro j Pj hj0 hAj
+      obtain ⟨p, l', b', Pp, hcp, hAp, hPe, hB, hie, hla, hlb⟩ := hI.child j Pj hj0 hAj
+      have hB' : s.base p = some b' := hB
+      refine ⟨p, l', b', Pp, ?_, hAp, hPe, ?_, hie, hla, hlb⟩
+      · rw [check_setBase]; exact hcp
+      · simp only [cbf]
+        by_cases hp : p = node
+        · subst hp
+          rw [hob] at hB'
+          have hbb : b' = ob := (Option.some.inj hB').symm
+          subst hbb
+          have : l' ∈ s.findLabelsOf p nl :=
+            (mem_findLabelsOf s p nl l').2 ⟨b', hob, hla, hlb, by rw [← hie]; exact hcp⟩
+          rw [if_pos ⟨rfl, this⟩]
+        · have : ¬ (p = node ∧ l' ∈ s.findLabelsOf node nl) := fun hh => hp hh.1
+          rw [if_neg this, base_setBase]
+          simp only [hp, false_and, if_false]; exact hB'
+  have hpend : ∀ l ∈ s.findLabelsOf node nl, 1 ≤ l ∧ (s.setBase node (some nb)).check (ob + l) = some node ∧
+      A (ob + l) = some (P ++ [l]) := by
+    intro l hl
+    obtain ⟨b, hb, h1, _, hc⟩ := (mem_findLabelsOf s node nl l).1 hl
+    rw [hob] at hb
+    have : b = ob := (Option.some.inj hb).symm
+    subst this
+    exact ⟨h1, by rw [check_setBase]; exact hc, child_path hI node b l P hob hc h1 hP⟩
+  have hfree0 : ∀ l, l ∈ s.findLabelsOf node nl ∨ l ∈ resv → (s.setBase node (some nb)).check (nb + l) = none := by
+    intro l hl; rw [check_setBase]; exact hfree l hl
+  obtain ⟨A', hI', hF', hP', hb', hres, hpaths, hsz⟩ :=
+    moveChildren_inv nl node ob nb P resv _ _ s' A hI0 (freeOK_setBase s node (some nb) hF) hP hb0
+      (nodup_findLabelsOf s node nl) hpend hfree0 hdisj h
+  rw [size_setBase] at hsz
+  exact ⟨A', hI', hF', hP', hb', hres, hpaths, hsz⟩
+
+/-! ### one step of `insert` -/
+
+theorem paths_record (A : Nat → Option (List Nat)) (ci : Nat) (Q M : List Nat) (hci : A ci = none) :
+    (∃ i, (if i = ci then some Q else A i) = some M) ↔ ((∃ i, A i = some M) ∨ M = Q) := by
+  constructor
+  · rintro ⟨i, hi⟩
+    by_cases h : i = ci
+    · simp only [h, if_true, Option.some.injEq] at hi; exact Or.inr hi.symm
+    · simp only [h, if_false] at hi; exact Or.inl ⟨i, hi⟩
+  · rintro (⟨i, hi⟩ | h)
+    · have : i ≠ ci := by intro hh; rw [hh, hci] at hi; cases hi
+      exact ⟨i, by simp only [this, if_false]; exact hi⟩
+    · exact ⟨ci, by simp [h]⟩
+
+theorem xcheck_ne_reject (s : Nodes) (labels : List Nat) (c : Nat) : s.xcheck labels c ≠ .reject := by
+  unfold Nodes.xcheck
+  split
+  · intro h; cases h
+  · split
+    · intro h; cases h
+    · split <;> intro h <;> cases h
+
+theorem insertBase_inv (nl : Nat) (s : Nodes) (cur label : Nat) (oracle : List Nat)
+    (s1 : Nodes) (b : Nat) (o1 : List Nat) (A : Nat → Option (List Nat)) (P : List Nat)
+    (hI : Inv0 nl s A) (hF : FreeOK s) (hP : A cur = some P)
+    (h : insertBase s cur label oracle = .ok (s1, b, o1)) :
+    Inv0 nl s1 A ∧ FreeOK s1 ∧ s1.base cur = some b := by
+  unfold insertBase at h
+  cases hb : s.base cur with
+  | some b0 =>
+    simp only [hb, Res.ok.injEq, Prod.mk.injEq] at h
+    obtain ⟨rfl, rfl, _⟩ := h
+    exact ⟨hI, hF, hb⟩
+  | none =>
+    simp only [hb] at h
+    cases oracle with
+    | nil => simp at h
+    | cons c rest =>
+      simp only at h
+      cases hx : s.xcheck [label] c with
+      | ok b' =>
+        simp only [hx, Res.ok.injEq, Prod.mk.injEq] at h
+        obtain ⟨rfl, rfl, _⟩ := h
+        refine ⟨setBase_inv nl s cur b' A P hI hP hb, freeOK_setBase _ _ _ hF, ?_⟩
+        rw [base_setBase]; simp [hI.lt_size cur P hP]
+      | reject => simp [hx] at h
+      | panic => simp [hx] at h
+      | badOracle => simp [hx] at h
+
+theorem insertBase_ne_reject (s : Nodes) (cur label : Nat) (oracle : List Nat) :
+    insertBase s cur label oracle ≠ .reject := by
+  unfold insertBase
+  cases s.base cur with
+  | some b0 => intro h; cases h
+  | none =>
+    cases oracle with
+    | nil => intro h; cases h
+    | cons c rest =>
+      simp only
+      cases hx : s.xcheck [label] c with
+      | ok b' => intro h; cases h
+      | reject => exact absurd hx (xcheck_ne_reject _ _ _)
+      | panic => intro h; cases h
+      | badOracle => intro h; cases h
+
+theorem insertTail_ne_reject (nl : Nat) (s1 : Nodes) (cur label b : Nat) (o1 : List Nat) :
+    insertTail nl s1 cur label b o1 ≠ .reject := by
+  unfold insertTail
+  cases s1.check (b + label) with
+  | none =>
+    simp only
+    cases s1.recordTransition cur label with
+    | none => intro h; cases h
+    | some r => intro h; cases h
+  | some n =>
+    simp only
+    split
+    · intro h; cases h
+    · cases o1 with
+      | nil => intro h; cases h
+      | cons c rest =>
+        simp only
+        cases hx : s1.xcheck (s1.findLabelsOf cur nl ++ [label]) c with
+        | ok nb =>
+          simp only
+          cases s1.rebase cur nb nl with
+          | none => intro h; cases h
+          | some s2 =>
+            simp only
+            cases s2.recordTransition cur label with
+            | none => intro h; cases h
+            | some r => intro h; cases h
+        | reject => exact absurd hx (xcheck_ne_reject _ _ _)
+        | panic => intro h; cases h
+        | badOracle => intro h; cases h
+
+theorem insertTail_inv (nl : Nat) (s1 : Nodes) (cur label b : Nat) (o1 : List Nat)
+    (s' : Nodes) (cur' : Nat) (o' : List Nat) (A : Nat → Option (List Nat)) (P : List Nat)
+    (hI : Inv0 nl s1 A) (hF : FreeOK s1) (hP : A cur = some P) (hb : s1.base cur = some b)
+    (hl : 1 ≤ label ∧ label ≤ nl)
+    (h : insertTail nl s1 cur label b o1 = .ok (s', cur', o')) :
+    ∃ A', Inv0 nl s' A' ∧ FreeOK s' ∧ A' cur' = some (P ++ [label]) ∧
+      (∀ M, (∃ i, A' i = some M) ↔ ((∃ i, A i = some M) ∨ M = P ++ [label])) := by
+  unfold insertTail at h
+  cases hc : s1.check (b + label) with
+  | none =>
+    simp only [hc] at h
+    cases hr : s1.recordTransition cur label with
+    | none => simp [hr] at h
+    | some r =>
+      obtain ⟨s2, t⟩ := r
+      simp only [hr, Res.ok.injEq, Prod.mk.injEq] at h
+      obtain ⟨rfl, rfl, _⟩ := h
+      have hfree : ∀ b', s1.base cur = some b' → s1.check (b' + label) = none := by
+        intro b' hb'; rw [hb] at hb'; rw [← Option.some.inj hb']; exact hc
+      obtain ⟨hI2, hF2, _, _, hAt⟩ := recordTransition_inv nl s1 cur label s2 t A P hI hP hl hfree hr
+      exact ⟨_, hI2, hF2 hF, by simp, fun M => paths_record A t _ M hAt⟩
+  | some n =>
+    simp only [hc] at h
+    by_cases hn : n = cur
+    · subst hn
+      simp only [if_true, Res.ok.injEq, Prod.mk.injEq] at h
+      obtain ⟨rfl, rfl, _⟩ := h
+      have hpath := child_path hI n b label P hb hc hl.1 hP
+      refine ⟨A, hI, hF, hpath, ?_⟩
+      intro M
+      constructor
+      · exact Or.inl
+      · rintro (h | h)
+        · exact h
+        · exact ⟨b + label, by rw [h]; exact hpath⟩
+    · simp only [hn, if_false] at h
+      cases o1 with
+      | nil => simp at h
+      | cons c rest =>
+        simp only at h
+        cases hx : s1.xcheck (s1.findLabelsOf cur nl ++ [label]) c with
+        | reject => simp [hx] at h
+        | panic => simp [hx] at h
+        | badOracle => simp [hx] at h
+        | ok nb =>
+          simp only [hx] at h
+          have hxs := xcheck_spec s1 _ c nb hF hx
+          cases hrb : s1.rebase cur nb nl with
+          | none => simp [hrb] at h
+          | some s2 =>
+            simp only [hrb] at h
+            cases hr : s2.recordTransition cur label with
+            | none => simp [hr] at h
+            | some r =>
+              obtain ⟨s3, t⟩ := r
+              simp only [hr, Res.ok.injEq, Prod.mk.injEq] at h
+              obtain ⟨rfl, rfl, _⟩ := h
+              have hfree : ∀ l, l ∈ s1.findLabelsOf cur nl ∨ l ∈ [label] → s1.check (nb + l) = none := by
+                intro l hl'
+                apply hxs
+                rcases hl' with hl' | hl'
+                · exact List.mem_append_left _ hl'
+                · exact List.mem_append_right _ hl'
+              have hdisj : ∀ l ∈ s1.findLabelsOf cur nl, l ∉ [label] := by
+                intro l hl' hmem
+                simp only [List.mem_singleton] at hmem
+                subst hmem
+                obtain ⟨b', hb', _, _, hc'⟩ := (mem_findLabelsOf s1 cur nl l).1 hl'
+                rw [hb] at hb'
+                rw [← Option.some.inj hb', hc] at hc'
+                exact hn (Option.some.inj hc')
+              obtain ⟨A2, hI2, hF2, hP2, hb2, hres2, hpaths2, _⟩ :=
+                rebase_inv nl s1 cur b nb s2 A P [label] hI hF hP hb hfree hdisj hrb
+              have hfree2 : ∀ b', s2.base cur = some b' → s2.check (b' + label) = none := by
+                intro b' hb'; rw [hb2] at hb'; rw [← Option.some.inj hb']
+                exact hres2 label (List.mem_singleton.2 rfl)
+              obtain ⟨hI3, hF3, _, _, hAt⟩ := recordTransition_inv nl s2 cur label s3 t A2 P hI2 hP2 hl hfree2 hr
+              refine ⟨_, hI3, hF3 hF2, by simp, ?_⟩
+              intro M
+              rw [paths_record A2 t _ M hAt, hpaths2 M]
+
+theorem insertStep_inv (nl : Nat) (s : Nodes) (cur label : Nat) (oracle : List Nat)
+    (s' : Nodes) (cur' : Nat) (o' : List Nat) (A : Nat → Option (List Nat)) (P : List Nat)
+    (hI : Inv0 nl s A) (hF : FreeOK s) (hP : A cur = some P) (hl : 1 ≤ label ∧ label ≤ nl)
+    (h : insertStep nl s cur label oracle = .ok (s', cur', o')) :
+    ∃ A', Inv0 nl s' A' ∧ FreeOK s' ∧ A' cur' = some (P ++ [label]) ∧
+      (∀ M, (∃ i, A' i = some M) ↔ ((∃ i, A i = some M) ∨ M = P ++ [label])) := by
+  unfold insertStep at h
+  rw [if_pos (hI.lt_size cur P hP)] at h
+  cases hbse : insertBase s cur label oracle with
+  | ok r =>
+    obtain ⟨s1, b, o1⟩ := r
+    simp only [hbse] at h
+    obtain ⟨hI1, hF1, hb1⟩ := insertBase_inv nl s cur label oracle s1 b o1 A P hI hF hP hbse
+    exact insertTail_inv nl s1 cur label b o1 s' cur' o' A P hI1 hF1 hP hb1 hl h
+  | reject => simp [hbse] at h
+  | panic => simp [hbse] at h
+  | badOracle => simp [hbse] at h
+
+theorem insertStep_ne_reject (nl : Nat) (s : Nodes) (cur label : Nat) (oracle : List Nat)
+    (A : Nat → Option (List Nat)) (P : List Nat) (hI : Inv0 nl s A) (hP : A cur = some P) :
+    insertStep nl s cur label oracle ≠ .reject := by
+  unfold insertStep
+  rw [if_pos (hI.lt_size cur P hP)]
+  cases hbse : insertBase s cur label oracle with
+  | ok r => obtain ⟨s1, b, o1⟩ := r; exact insertTail_ne_reject nl s1 cur label b o1
+  | reject => exact absurd hbse (insertBase_ne_reject _ _ _ _)
+  | panic => intro h; cases h
+  | badOracle => intro h; cases h
+
+/-! ### the whole insertion -/
+
+theorem insertLoop_inv (nl : Nat) : ∀ (ls : List Nat) (s : Nodes) (cur : Nat) (oracle : List Nat)
+    (s' : Nodes) (o' : List Nat) (A : Nat → Option (List Nat)) (P : List Nat),
+    Inv0 nl s A → FreeOK s → A cur = some P → (∀ l ∈ ls, 1 ≤ l ∧ l ≤ nl) →
+    insertLoop nl s cur ls oracle = .ok (s', o') →
+    ∃ A', Inv0 nl s' A' ∧ FreeOK s' ∧
+      (∀ M, (∃ i, A' i = some M) ↔
+        ((∃ i, A i = some M) ∨ ∃ k, 1 ≤ k ∧ k ≤ ls.length ∧ M = P ++ ls.take k))
+  | [], s, cur, oracle, s', o', A, P, hI, hF, _, _, h => by
+    simp only [insertLoop, Res.ok.injEq, Prod.mk.injEq] at h
+    obtain ⟨rfl, _⟩ := h
+    refine ⟨A, hI, hF, ?_⟩
+    intro M
+    constructor
+    · exact Or.inl
+    · rintro (h | ⟨k, h1, h2, _⟩)
+      · exact h
+      · simp at h2; omega
+  | l :: ls, s, cur, oracle, s', o', A, P, hI, hF, hP, hls, h => by
+    unfold insertLoop at h
+    cases hst : insertStep nl s cur l oracle with
+    | ok r =>
+      obtain ⟨s1, cur1, o1⟩ := r
+      simp only [hst] at h
+      obtain ⟨A1, hI1, hF1, hP1, hpaths1⟩ :=
+        insertStep_inv nl s cur l oracle s1 cur1 o1 A P hI hF hP (hls l List.mem_cons_self) hst
+      obtain ⟨A', hI', hF', hpaths'⟩ :=
+        insertLoop_inv nl ls s1 cur1 o1 s' o' A1 (P ++ [l]) hI1 hF1 hP1
+          (fun x hx => hls x (List.mem_cons_of_mem _ hx)) h
+      refine ⟨A', hI', hF', ?_⟩
+      intro M
+      rw [hpaths' M, hpaths1 M]
+      constructor
+      · rintro ((h | h) | ⟨k, h1, h2, h3⟩)
+        · exact Or.inl h
+        · exact Or.inr ⟨1, by omega, by simp, by simp [h]⟩
+        · refine Or.inr ⟨k + 1, by omega, by simp; omega, ?_⟩
+          rw [h3]; simp
+      · rintro (h | ⟨k, h1, h2, h3⟩)
+        · exact Or.inl (Or.inl h)
+        · rcases Nat.lt_or_ge 1 k with hk | hk
+          · refine Or.inr ⟨k - 1, by omega, by simp at h2; omega, ?_⟩
+            have : k = (k - 1) + 1 := by omega
+            rw [h3, this, List.take_succ_cons]; simp
+          · have : k = 1 := by omega
+            subst this
+            exact Or.inl (Or.inr (by rw [h3]; simp))
+    | reject => simp [hst] at h
+    | panic => simp [hst] at h
+    | badOracle => simp [hst] at h
+
+theorem insertLoop_ne_reject (nl : Nat) : ∀ (ls : List Nat) (s : Nodes) (cur : Nat) (oracle : List Nat)
+    (A : Nat → Option (List Nat)) (P : List Nat),
+    Inv0 nl s A → FreeOK s → A cur = some P → (∀ l ∈ ls, 1 ≤ l ∧ l ≤ nl) →
+    insertLoop nl s cur ls oracle ≠ .reject
+  | [], s, cur, oracle, A, P, _, _, _, _ => by simp [insertLoop]
+  | l :: ls, s, cur, oracle, A, P, hI, hF, hP, hls => by
+    unfold insertLoop
+    cases hst : insertStep nl s cur l oracle with
+    | ok r =>
+      obtain ⟨s1, cur1, o1⟩ := r
+      obtain ⟨A1, hI1, hF1, hP1, _⟩ :=
+        insertStep_inv nl s cur l oracle s1 cur1 o1 A P hI hF hP (hls l List.mem_cons_self) hst
+      exact insertLoop_ne_reject nl ls s1 cur1 o1 A1 (P ++ [l]) hI1 hF1 hP1
+        (fun x hx => hls x (List.mem_cons_of_mem _ hx))
+    | reject => exact absurd hst (insertStep_ne_reject nl s cur l oracle A P hI hP)
+    | panic => intro h; cases h
+    | badOracle => intro h; cases h
+
+/-! ### searching -/
+
+theorem walk_append (s : Nodes) : ∀ (M1 M2 : List Nat) (p : Nat),
+    s.walk p (M1 ++ M2) = (s.walk p M1).bind fun q => s.walk q M2
+  | [], M2, p => by simp [Nodes.walk]
+  | l :: M1, M2, p => by
+    simp only [List.cons_append, Nodes.walk]
+    cases s.child p l with
+    | none => rfl
+    | some q => exact walk_append s M1 M2 q
+
+theorem child_some (s : Nodes) (p l q : Nat) (h : s.child p l = some q) :
+    ∃ b, s.base p = some b ∧ q = b + l ∧ s.check (b + l) = some p := by
+  unfold Nodes.child at h
+  cases hb : s.base p with
+  | none => simp [hb] at h
+  | some b =>
+    simp only [hb] at h
+    split at h
+    · next hc => exact ⟨b, rfl, (Option.some.inj h).symm, hc⟩
+    · cases h
+
+/-- Walking along labels ≥ 1 from a used slot ends at the slot carrying the extended path. -/
+theorem walk_path {nl s A} (hI : Inv0 nl s A) : ∀ (M : List Nat) (p q : Nat) (P : List Nat),
+    (∀ l ∈ M, 1 ≤ l) → A p = some P → s.walk p M = some q → A q = some (P ++ M)
+  | [], p, q, P, _, hP, h => by
+    simp only [Nodes.walk, Option.some.injEq] at h; subst h; simpa using hP
+  | l :: M, p, q, P, hM, hP, h => by
+    simp only [Nodes.walk] at h
+    cases hc : s.child p l with
+    | none => simp [hc] at h
+    | some q1 =>
+      simp only [hc] at h
+      obtain ⟨b, hb, hq1, hck⟩ := child_some s p l q1 hc
+      have := child_path hI p b l P hb hck (hM l List.mem_cons_self) hP
+      rw [← hq1] at this
+      have := walk_path hI M q1 q (P ++ [l]) (fun x hx => hM x (List.mem_cons_of_mem _ hx)) this h
+      simpa using this
+
+theorem path_walk {nl s A} (hI : Inv0 nl s A) : ∀ (n : Nat) (M : List Nat) (q : Nat),
+    M.length = n → A q = some M → s.walk 0 M = some q
+  | 0, M, q, hn, hA => by
+    have : M = [] := List.eq_nil_of_length_eq_zero hn
+    subst this
+    by_cases hq : q = 0
+    · subst hq; rfl
+    · obtain ⟨p, l, b, Pp, _, _, hPe, _⟩ := hI.child q [] hq hA
+      have := congrArg List.length hPe
+      simp at this
+  | n + 1, M, q, hn, hA => by
+    have hq : q ≠ 0 := by
+      intro hh; subst hh; rw [hI.root_path] at hA
+      have := Option.some.inj hA; subst this; simp at hn
+    obtain ⟨p, l, b, Pp, hcp, hAp, hPe, hB, hie, hl1, _⟩ := hI.child q M hq hA
+    have hB' : s.base p = some b := hB
+    have hlen : Pp.length = n := by
+      have := congrArg List.length hPe
+      simp at this; omega
+    have ih := path_walk hI n Pp p hlen hAp
+    rw [hPe, walk_append, ih]
+    simp only [Option.bind_some, Nodes.walk, Nodes.child, hB']
+    rw [← hie, hcp]
+    simp
+
+theorem search_iff {nl s A} (hI : Inv0 nl s A) (M : List Nat) (hM : ∀ l ∈ M, 1 ≤ l) :
+    (s.walk 0 M).isSome = true ↔ ∃ i, A i = some M := by
+  constructor
+  · intro h
+    cases hw : s.walk 0 M with
+    | none => simp [hw] at h
+    | some q =>
+      have := walk_path hI M 0 q [] hM hI.root_path hw
+      exact ⟨q, by simpa using this⟩
+  · rintro ⟨q, hq⟩
+    rw [path_walk hI M.length M q rfl hq]; rfl
+
+/-! ### keys and labels -/
+
+theorem indexOf_some (c : Nat) : ∀ (l : List Nat) (i : Nat), indexOf c l = some i → l[i]? = some c
+  | [], i, h => by simp [indexOf] at h
+  | x :: t, i, h => by
+    unfold indexOf at h
+    split at h
+    · next hb =>
+      simp only [Option.some.injEq] at h; subst h
+      simp [Nat.eq_of_beq_eq_true hb]
+    · cases hx : indexOf c t with
+      | none => simp [hx] at h
+      | some k =>
+        simp only [hx, Option.map_some, Option.some.injEq] at h
+        subst h
+        simpa using indexOf_some c t k hx
+
+theorem indexOf_of_mem (c : Nat) : ∀ (l : List Nat), c ∈ l → ∃ i, indexOf c l = some i
+  | [], h => by cases h
+  | x :: t, h => by
+    unfold indexOf
+    by_cases hb : Nat.beq c x = true
+    · exact ⟨0, by simp [hb]⟩
+    · have hf : Nat.beq c x = false := by cases hq : Nat.beq c x with | false => rfl | true => exact absurd hq hb
+      have : c ∈ t := by
+        rcases List.mem_cons.1 h with h | h
+        · subst h; exact absurd (Nat.beq_refl c) hb
+        · exact h
+      obtain ⟨i, hi⟩ := indexOf_of_mem c t this
+      exact ⟨i + 1, by simp [hf, hi]⟩
+
+theorem keyLabels_bound (alpha : List Nat) : ∀ (key r : List Nat), keyLabels alpha key = some r →
+    ∀ l ∈ r, 1 ≤ l ∧ l ≤ alpha.length
+  | [], r, h => by simp [keyLabels] at h; subst h; intro l hl; cases hl
+  | c :: t, r, h => by
+    unfold keyLabels at h
+    cases hi : indexOf c alpha with
+    | none => simp [hi] at h
+    | some i =>
+      cases hr : keyLabels alpha t with
+      | none => simp [hi, hr] at h
+      | some r' =>
+        simp only [hi, hr, Option.some.injEq] at h
+        subst h
+        intro l hl
+        rcases List.mem_cons.1 hl with rfl | hl
+        · have := indexOf_some c alpha i hi
+          have hlt : i < alpha.length := by
+            rcases Nat.lt_or_ge i alpha.length with h | h
+            · exact h
+            · rw [List.getElem?_eq_none h] at this; cases this
+          omega
+        · exact keyLabels_bound alpha t r' hr l hl
+
+theorem keyLabels_inj (alpha : List Nat) : ∀ (k1 k2 r : List Nat),
+    keyLabels alpha k1 = some r → keyLabels alpha k2 = some r → k1 = k2
+  | [], [], _, _, _ => rfl
+  | [], c :: t, r, h1, h2 => by
+    simp [keyLabels] at h1; subst h1
+    unfold keyLabels at h2
+    cases hi : indexOf c alpha <;> cases hr : keyLabels alpha t <;> simp [hi, hr] at h2
+  | c :: t, [], r, h1, h2 => by
+    simp [keyLabels] at h2; subst h2
+    unfold keyLabels at h1
+    cases hi : indexOf c alpha <;> cases hr : keyLabels alpha t <;> simp [hi, hr] at h1
+  | c1 :: t1, c2 :: t2, r, h1, h2 => by
+    unfold keyLabels at h1 h2
+    cases hi1 : indexOf c1 alpha with
+    | none => simp [hi1] at h1
+    | some i1 =>
+      cases hr1 : keyLabels alpha t1 with
+      | none => simp [hi1, hr1] at h1
+      | some r1 =>
+        cases hi2 : indexOf c2 alpha with
+        | none => simp [hi2] at h2
+        | some i2 =>
+          cases hr2 : keyLabels alpha t2 with
+          | none => simp [hi2, hr2] at h2
+          | some r2 =>
+            simp only [hi1, hr1, Option.some.injEq] at h1
+            simp only [hi2, hr2, Option.some.injEq] at h2
+            rw [← h1] at h2
+            simp only [List.cons.injEq] at h2
+            have hi : i2 = i1 := by omega
+            have hrr : r2 = r1 := h2.2
+            subst hi hrr
+            have e1 := indexOf_some c1 alpha i2 hi1
+            have e2 := indexOf_some c2 alpha i2 hi2
+            rw [e1] at e2
+            have hc : c1 = c2 := Option.some.inj e2
+            rw [hc, keyLabels_inj alpha t1 t2 r2 hr1 hr2]
+
+theorem keyLabels_some_of_mem (alpha : List Nat) : ∀ key : List Nat, (∀ c ∈ key, c ∈ alpha) →
+    ∃ r, keyLabels alpha key = some r
+  | [], _ => ⟨[], rfl⟩
+  | c :: t, h => by
+    obtain ⟨i, hi⟩ := indexOf_of_mem c alpha (h c List.mem_cons_self)
+    obtain ⟨r, hr⟩ := keyLabels_some_of_mem alpha t (fun x hx => h x (List.mem_cons_of_mem _ hx))
+    exact ⟨(i + 1) :: r, by simp [keyLabels, hi, hr]⟩
+
+/-- The initial trie. -/
+theorem inv_init (nl : Nat) :
+    Inv0 nl Nodes.init (fun i => if i = 0 then some [] else none) ∧ FreeOK Nodes.init := by
+  have hget : ∀ i, i ≠ 0 → Nodes.init.get i = emptySlot := by
+    intro i hi
+    apply get_of_ge
+    simp [Nodes.size, Nodes.init]; omega
+  refine ⟨⟨rfl, rfl, ?_, ?_, ?_⟩, ?_⟩
+  · intro i
+    by_cases hi : i = 0
+    · subst hi; simp [Nodes.check, Nodes.get, Nodes.init]
+    · simp [hi, Nodes.check, hget i hi, emptySlot]
+  · intro i hc
+    by_cases hi : i = 0
+    · subst hi; simp [Nodes.check, Nodes.get, Nodes.init] at hc
+    · simp [Nodes.base, hget i hi, emptySlot]
+  · intro i P hi hA
+    simp [hi] at hA
+  · refine ⟨by simp [Nodes.init], ?_⟩
+    intro i
+    simp only [Nodes.init, List.not_mem_nil, false_iff, not_and]
+    intro hlt
+    have : i = 0 := by simp [Nodes.size] at hlt; omega
+    subst this
+    simp [Nodes.check, Nodes.get]
+
 end Chokan.Trie
